@@ -68,8 +68,18 @@ def generate(seed, tier, feats=None, focus="C10"):
     orng.shuffle(todo)
     if tier == "quick":
         todo = todo[:160]
+    fns = []
+    for var in cg["variants"]:
+        for cp in var["cps"]:
+            if "fn" in cp["target"]:
+                fns.append(cp["target"]["fn"])
+            if cp.get("iff") and "fn" in cp["iff"]:
+                fns.append("iff:" + cp["iff"]["fn"])
     for v in todo:
-        ops.append({"op": "sample", "i": orng.randrange(n_inst), "vals": v})
+        op = {"op": "sample", "i": orng.randrange(n_inst), "vals": v}
+        if fns and orng.random() < 0.06:
+            op["fault"] = orng.choice(fns)
+        ops.append(op)
         if orng.random() < 0.08:
             ops.append({"op": "query", "i": orng.randrange(n_inst)})
     return {"prop": focus, "seed": seed, "prog": prog, "ops": ops}
